@@ -236,6 +236,8 @@ def compare(repo, map_path):
             diffs.append(f"new or changed site {s['file']}:{s['line']} in {s['impl']}::{s['fn']}: `{s['text']}`")
         elif known[k].get("cover") in (None, "", "UNMAPPED"):
             diffs.append(f"site without cover {s['file']}:{s['line']} in {s['impl']}::{s['fn']}: `{s['text']}`")
+        elif known[k].get("cover_generated") in (None, "", "UNMAPPED"):
+            diffs.append(f"site without cover_generated {s['file']}:{s['line']} in {s['impl']}::{s['fn']}: `{s['text']}`")
     for k, s in known.items():
         if k not in curk:
             diffs.append(f"site of the model inventory no longer in the source: {s['file']} (was line {s.get('line')}) "
@@ -253,6 +255,18 @@ def compare(repo, map_path):
         if k not in mm.get("functions", {}):
             diffs.append(f"new function (not in the model inventory): {k}")
     return diffs
+
+
+def rule_cover_generated(s):
+    """`cover_generated` of a site: the C13Gen theorem on the source-regenerated definition, or why there is none."""
+    import importlib.util
+    spec = importlib.util.spec_from_file_location("c13_cover_rules", os.path.join(HERE, "c13_cover_rules.py"))
+    mod = importlib.util.module_from_spec(spec)
+    spec.loader.exec_module(mod)
+    for fsub, fnre, textre, cover in mod.RULES_GEN:
+        if fsub in s["file"] and re.search(fnre, s["impl"] + "::" + s["fn"]) and re.search(textre, s["text"]):
+            return cover
+    return "UNMAPPED"
 
 
 def rule_cover(s):
@@ -278,8 +292,11 @@ def regen(repo, map_path):
         cover = o["cover"] if o else None
         if cover is None or cover.startswith("tie-only (pending)") or cover == "UNMAPPED":
             cover = rule_cover(s)
+        cg = o.get("cover_generated") if o else None
+        if not cg or cg == "UNMAPPED":
+            cg = rule_cover_generated(s)
         out.append({"key": s["key"], "file": s["file"], "impl": s["impl"], "fn": s["fn"], "text": s["text"],
-                    "occ": s["occ"], "line": s["line"], "cover": cover})
+                    "occ": s["occ"], "line": s["line"], "cover": cover, "cover_generated": cg})
     doc = {"comment": "C13 site inventory the Chk models were written against; regenerate with tools/c13_inventory.py regen; "
                       "`cover` = Lean theorem(s) covering the site or `tie-only: <why>`; `line` is informative only",
            "repo_head": os.popen(f"git -C {repo} rev-parse --short HEAD 2>/dev/null").read().strip(),
